@@ -89,15 +89,7 @@ def check_type(value: Any, attr_type: Type) -> bool:
                         if not check_type(item, attr_type.__args__[i]):
                             return False
             elif attr_type.__origin__ == type:
-                class_type = attr_type.__args__[0]
-                # `issubclass` refuses parameterised generics (`Type[List[int]]`);
-                # the subclass relation is then with the underlying class.
-                class_origin = getattr(class_type, "__origin__", None)
-                if class_origin is not None and class_origin is not Union:
-                    if not isinstance(class_origin, type):
-                        return False
-                    class_type = class_origin
-                if class_type is not Any and not issubclass(value, class_type):
+                if not _is_subclass(value, attr_type.__args__[0]):
                     return False
 
             return True
@@ -107,6 +99,24 @@ def check_type(value: Any, attr_type: Type) -> bool:
         )  # pragma: no cover; This is here as a fallback currently, just in case!
 
     return isinstance(value, attr_type)
+
+
+def _is_subclass(value: type, class_type: Type) -> bool:
+    """
+    Whether the class `value` satisfies `Type[class_type]`. `issubclass`
+    refuses parameterised generics (`Type[List[int]]`, also as alternatives of
+    a union); the subclass relation is then with the underlying class.
+    """
+    if class_type is Any:
+        return True
+    if sys.version_info >= (3, 10) and isinstance(class_type, types.UnionType):
+        return any(_is_subclass(value, type_) for type_ in class_type.__args__)
+    class_origin = getattr(class_type, "__origin__", None)
+    if class_origin is Union:
+        return any(_is_subclass(value, type_) for type_ in class_type.__args__)
+    if class_origin is not None:
+        return isinstance(class_origin, type) and issubclass(value, class_origin)
+    return issubclass(value, class_type)
 
 
 def get_collection_item_type(container_type: Type) -> Type:
